@@ -176,6 +176,87 @@ TABLE = {
               "a device with a non-empty RefTracker whose make_patch raises, then a later device of the same model in the same process"),
     "C20-4": ("patching._find_acl_matches memoises the rule's alphabet in the shared compiled ACL without distinguishing direct/reverse pattern",
               "an earlier device making a rule match through its reverse pattern first, then a row where two rules are within a symbol in specificity"),
+    # ---- round 3 (asked for changes away from the obvious anchor: helpers, data files, vendor branches, process history)
+    "C01-5": ("shipped data: `undo mtu %order_reverse` appended to the `interface *` block of huawei.order",
+              "huawei, shipped rulebook, an interface whose mtu VALUE changes (undo_redo logic): the removal is ordered after the re-creation"),
+    "C01-6": ("patching._select_match memoises the merged children rules on the first matching rule",
+              "a general block rule listed before a more specific sibling, a general-only row processed before a row matching both, in one process"),
+    "C02-5": ("patching.make_diff applies every ACL of acl_rules_list to the raw diff, keeping only the last one's result",
+              "a filter ACL (--filter-acl) after the generators' ACL and an explicitly %cant_delete row removed from new"),
+    "C02-6": ("generators/result.RunGeneratorResult: partial_results dict as a shared constructor default",
+              ">= 2 devices in one process, a generator that ran on the earlier one and is skipped on the later one"),
+    "C03-5": ("patching._select_match caches merged children rules on the winning rule",
+              "generic sibling rule before a specific one that also matches, an earlier row won by the same rule with another co-matching set"),
+    "C03-6": ("common.base_diff: op stack as a mutable default list pushed/popped without try/finally",
+              "an earlier diff in the same process that raised inside a nested level (juniper comment_processor on a non-JSON annotation)"),
+    "C04-5": ("CiscoFormatter.block_exit learns `template peer-policy/peer-session` exits (the splitter asks block_exit which rows open flat sections)",
+              "cisco, a row starting with `template peer-policy` followed by a sibling"),
+    "C04-6": ("JuniperFormatter strip regexes compiled lazily and cached on the class (shared with Ribbon/Nokia)",
+              "a Nokia formatter splitting first in the process, then a Juniper/Ribbon config"),
+    "C05-5": ("CommonFormatter.split dedents the text before splitting lines",
+              "all lines share a margin > 0 and a `#` line sits exactly at that margin while a block is open"),
+    "C05-6": ("tabparser line classification memoised by the raw line only (comment markers ignored in the key)",
+              "a second parse in the same process with another comment-marker set sharing a byte-identical `!...` line"),
+    "C06-5": ("rbparser/acl.compile_acl_text cached by (text, reverse_prefix) instead of (text, vendor)",
+              "the same ACL text compiled for nokia/ribbon first and juniper afterwards, a juniper `inactive:` row"),
+    "C06-6": ("patching._select_match merges same-key child rules through a shallow copy (writes grandchildren into the cached compiled ACL)",
+              "two partially overlapping sibling rules with a same-named child and different grandchildren, the overlapping row filtered first"),
+    "C07-5": ("rbparser/ordering: reverse form built by a string helper testing startswith(prefix) without the blank",
+              "an ordering rule whose first word begins with the negation word and is longer (`notify *`, `node * role ~`)"),
+    "C07-6": ("rbparser/syntax: one shared defaults dict for rules without %params (patching writes ignore_case back into it)",
+              "a patching text where a param-less inline `(?i)` rule precedes other param-less rules"),
+    "C08-5": ("rbparser/syntax._parse_raw_rule cuts the row at ` %name` (blank only): a TAB before a param is no longer recognised",
+              "huawei.order's two TAB-separated `%order_reverse` rules (undo diffserv domain, undo qos schedule-profile)"),
+    "C08-6": ("Orderer.order_config deletes %scope-limited rules from the shared compiled rulebook",
+              "juniper: order_config of any config, then make_patch in the same process (annotate rows)"),
+    "C09-5": ("patching.make_patch: the recursive call no longer passes do_commit",
+              "a %force_commit rule nested inside a block and do_commit=False"),
+    "C09-6": ("HuaweiFormatter.block_exit emits `endif` whenever an if-chain ends",
+              "huawei xpl route-filter with >= 2 if-chains in one patch: two identical command paths, one dropped by cmd_paths"),
+    "C10-5": ("generators/base._split_and_strip: textwrap.dedent(text).strip() -> inspect.cleandoc(text)",
+              "a multi-line yield whose first line is non-blank and less indented than the rest"),
+    "C10-6": ("patching._select_match stores the merged children rules on the best-matching rule",
+              "two sibling ACL rules with overlapping, non-nested match sets and an earlier row/device with another co-match set"),
+    "C11-5": ("cisco/vlandb._parse_vlancfg_actions: a row without `add` overwrites the set collected so far",
+              "a cisco `simple` list (global vlan lines, vlan group) over >= 2 lines with >= 2 lines changed in one diff"),
+    "C11-6": ("huawei/vlandb._parse_vlancfg lru_cached and the last row's set enlarged in place with |=",
+              "a diff changing >= 2 lines of one list, then a later diff in the same process containing a row with the same text"),
+    "C12-5": ("parallel.invoke_retry rewritten as a for loop: the final attempt no longer lists a generator result",
+              "a generator task that succeeds only on its last retry (exactly net_retry resets), or net_retry=0"),
+    "C12-6": ("Parallel defaults (incl. the callbacks lists) moved to class attributes",
+              "a second pool in one process after an earlier pool registered a callback"),
+    "C13-5": ("jsontools._ensure_pointer_exists: `not isinstance(doc.get(part), dict)`",
+              "a pointer passing through an array of objects: the list is replaced by an object"),
+    "C13-6": ("jsontools.apply_json_fragment: dict(old) with copy-on-write of sections, not applied on the delete path",
+              "a nested pointer, a section where the fragment only removes, then make_patch on the same old object"),
+    "C14-5": ("rpl policy: huawei extcommunity.remove(<RT list>) now emitted (`apply extcommunity-filter ... delete`), list not collected by get_used_community_lists",
+              "huawei, rule.extcommunity.remove(X) with X not referenced elsewhere"),
+    "C14-6": ("rpl prefix_lists: processed_names de-duplication set kept on the generator object",
+              "a second run of the same generator object (next device) with overlapping list names"),
+    "C15-5": ("mesh/match_args.PairMatcher._match_host: `if not data`",
+              "a direct/indirect rule with a literal host name (template without a placeholder)"),
+    "C15-6": ("mesh/basemodel.Unite._merge: in-place `x |= y`",
+              "a second rule landing on the same (fqdn, addr, vrf) key; a family set shared through a handler constant"),
+    "C16-5": ("api._read_device_config drops `!`/`#` lines before parsing",
+              "a Huawei dump whose space-prefixed global section follows an indented block, separated by `#`"),
+    "C16-6": ("make_patch/patch_from_pre gain a `scope` parameter before do_commit; _diff_and_patch's positional call shifts",
+              "juniper, a statement created together with its annotation (%scope rule of juniper.order)"),
+    "C17-5": ("cisco/iface.is_ip_cmd also treats `no ` rows as L3 lines (shared by the nexus interface diff_logic)",
+              "a Nexus model with interface defaults and an interface whose `vrf member` changes: implicit `no shutdown` surfaces as ADDED"),
+    "C17-6": ("implicit.config recurses into matched lines only for `!` rows",
+              "Huawei NE with an explicit `aaa` block: the default child is no longer added"),
+    "C18-5": ("netdev/db.find_true_sequences breaks after the first matching sibling",
+              "a model matching two sibling regexes (CE6865 vs CE6865E, B4com CS41.* vs CS4132U ...)"),
+    "C18-6": ("Orderer.insert merges reference rules in place into the shared compiled ordering rulebook",
+              "a patch with a non-empty RefTracker, then any later get_rulebook()/patch for the same vendor"),
+    "C19-5": ("types.GeneratorEntireResult gains __bool__ = bool(output); run_file_generators tests `if result`",
+              "an ENTIRE generator that renders an empty file"),
+    "C19-6": ("run_file_generators skips ENTIRE generators shadowed by a higher-prio claimant before it has produced anything",
+              "the higher-prio generator raises NotSupportedDevice and is listed first"),
+    "C20-5": ("HardwareView.__hash__/__eq__ compare the model case- and whitespace-insensitively",
+              "two devices whose model strings differ only in case (provider cache keyed by the view)"),
+    "C20-6": ("rbparser/acl: compiled ACL shared across vendors with one reverse prefix, attrs['vendor'] re-stamped in place",
+              "jobs juniper, ribbon/nokia (same ACL text), juniper again, with `inactive:` rows"),
 }
 
 
@@ -189,7 +270,9 @@ def main() -> int:
         prop = sid.split("-")[0]
         meta = {"id": sid, "property": prop, "change": what, "needs_to_manifest": needs,
                 "origin": "fresh sub-agent given only the property record and a scratch worktree of /repo"
-                          + (" (round 2: also told which two ideas were already taken)" if sid[-1] in "34" else ""),
+                          + (" (round 2: also told which two ideas were already taken)" if sid[-1] in "34" else
+                             " (round 3: told the four ideas already taken, asked for helpers / data files / vendor branches / process history)"
+                             if sid[-1] in "56" else ""),
                 "files": sorted(p.name for p in d.iterdir() if p.name != "meta.json"),
                 "ran": [f"python3 harness/drill.py {prop} seeded/{sid}  (scratch worktree of /repo + scratch copy of /verif; "
                         "repo test suite with the change, demo.py with and without the change, "
